@@ -107,6 +107,23 @@ Proof.
       destruct (_ <? 4294901760) eqn:E; try reflexivity; lia.
 Qed.
 
+(** In the model (as in the Go code, where [f >= 0] is false for a NaN) a NaN
+    bit pattern takes the "negative" branch and is encoded as [^u]; its exponent
+    bits are all ones, so [^u] has a zero among its top nine bits and is below
+    the stopper too.  Hence no float key at all reaches the stopper. *)
+Lemma f32_key_below_stopper_any : forall u page slot,
+  u < two32 -> lex_cmp (enc_f32_key u page slot) bt_stopper = Lt.
+Proof.
+  intros u page slot Hu.
+  destruct (f_is_nan u) eqn:Hn; [|now apply f32_key_below_stopper].
+  unfold enc_f32_key, enc_f32, enc_f32_word, f_ge0. rewrite Hn. cbn [negb andb].
+  unfold f_is_nan, f_exp in Hn. apply andb_true_iff in Hn. destruct Hn as [He _].
+  apply N.eqb_eq in He.
+  unfold lnot32, two32 in *.
+  rewrite be4_app_vs_stopper by (unfold two32; lia).
+  destruct (_ <? 4294901760) eqn:E; [reflexivity | lia].
+Qed.
+
 (** * Strings without a 255 byte *)
 
 Lemma str_key_below_stopper : forall s page slot,
